@@ -83,8 +83,21 @@ def observable(r):
     if r["kind"] == "recv":
         m = spec_decode(r["line"])
         if m is not None and m[2] == 3 and iname(r["before"]["proto"], m[4]) == "I_TIME":
-            # the two gateways read the clock at different moments
-            ws = [(w.rsplit(";", 1)[0] + ";<clock>\n" if w.startswith(f"{m[0]};{m[1]};3;0;{m[4]};") else w, ok) for w, ok in ws]
+            # the two gateways read the clock at different moments: a reply inside the bracket the
+            # harness took around the step (local seconds, like the reply) is "<clock>", any other
+            # value is shown by how far it is off
+            def _clock(w):
+                head, val = w.rstrip("\n").rsplit(";", 1)
+                try:
+                    v = int(val)
+                except ValueError:
+                    return w
+                t0, t1 = r.get("t0"), r.get("t1")
+                if t0 is None or t0 - 1 <= v <= t1 + 1:
+                    return head + ";<clock>\n"
+                return head + f";<clock off by {(v - t0) // 60} min>\n"
+
+            ws = [(_clock(w) if w.startswith(f"{m[0]};{m[1]};3;0;{m[4]};") else w, ok) for w, ok in ws]
     return out, ws, r["after"]["nodes"], r["after"]["sbuf"], r["after"]["ibuf"]
 
 
